@@ -17,7 +17,7 @@ META = {
                    "Euclidean distance to the returned closest point, that the closest point lies on the segment and that "
                    "no point of the segment is closer (variational inequality of the projection onto a convex set, checked at both end points)",
     "assumptions": ["floats as exact reals", "coordinates in [-2, 2], segments of squared length >= 1/4",
-                    "2-d: 1-2 points x 1-2 segments (2 x 2 in the thorough tier); 3-d: one point and one segment (with two segments or two points in 3-d z3 did not return)"],
+                    "2-d: 1 x 1, 1 x 2 and 2 x 1 points x segments; 3-d: one point and one segment (for larger configurations z3 did not return)"],
     "stubs": ["np.sqrt(x) / x ** 0.5: |t| when x is syntactically t*t, otherwise fresh r >= 0 with r*r == x",
               "np.ma comparisons of symbolic arrays: decided per element (forks)"],
     "outside": ["segment_segment_set, segment_set, points_polygon, segments_polygon, segment_overlap_segment_set "
@@ -28,7 +28,7 @@ META = {
 
 def shards(tier, seed):
     out = []
-    for nd, sizes in ((2, [(1, 1), (1, 2), (2, 1)] + ([(2, 2)] if tier != "quick" else [])), (3, [(1, 1)])):
+    for nd, sizes in ((2, [(1, 1), (1, 2), (2, 1)]), (3, [(1, 1)])):
         for np_, nl in sizes:
             out.append({"kind": "points_segments", "nd": nd, "np": np_, "nl": nl})
     for nd in (2, 3):
